@@ -31,15 +31,21 @@ type c11Params struct {
 	Rep   int       `json:"rep"`
 }
 
-var c11Kinds = []string{"connect", "pub1", "pub2rec", "pub2comp", "sub", "unsub", "ping", "retry-pub1", "retry-pub2", "retry-pub2comp", "retry-sub", "retry-unsub", "rc-dial", "rc-connack", "rc-backoff"}
-var c11Causes = []string{"precancel", "cancel", "deadline", "localclose", "peerclose", "malformed"}
+var c11Kinds = []string{"connect", "pub1", "pub2rec", "pub2comp", "sub", "unsub", "ping", "retry-pub1", "retry-pub2", "retry-pub2comp", "retry-sub", "retry-unsub", "rc-dial", "rc-connack", "rc-backoff", "rc-active"}
+var c11Causes = []string{"precancel", "cancel", "deadline", "localclose", "peerclose", "malformed", "disconnect"}
 
 func c11Gen(tier string, seed int64) []fw.Case {
 	var all []c11Case
 	for _, k := range c11Kinds {
 		for _, ca := range c11Causes {
-			if strings.HasPrefix(k, "rc-") && (ca == "localclose" || ca == "peerclose" || ca == "malformed") {
+			if strings.HasPrefix(k, "rc-") && (ca == "localclose" || ca == "peerclose" || ca == "malformed" || ca == "disconnect") {
 				continue // the reconnecting Connect is not tied to one connection
+			}
+			if k == "rc-active" && ca != "cancel" {
+				continue
+			}
+			if ca == "disconnect" && (k == "connect" || strings.HasPrefix(k, "retry-")) {
+				continue
 			}
 			for _, multi := range []bool{false, true} {
 				if multi && (strings.HasPrefix(k, "rc-") || strings.HasPrefix(k, "retry-") || k == "connect") {
@@ -341,6 +347,25 @@ func c11One(k c11Case, rng *rand.Rand) (sig, detail string, trace []string) {
 		primaryConn.PeerClose("cause")
 	case "malformed":
 		primaryConn.Send([]byte{0x36, 0x03, 0x00, 0x01, 'x'}, "malformed")
+	case "disconnect":
+		// Disconnect while requests are pending on the connection: it must return, and so must they
+		dres := make(chan error, 1)
+		go func() {
+			dctx, dcancel := context.WithTimeout(context.Background(), scen.Watchdog)
+			defer dcancel()
+			cs := tr.Call("Disconnect", "")
+			err := target.Disconnect(dctx)
+			tr.Ret(cs, "Disconnect", "", err)
+			dres <- err
+		}()
+		select {
+		case <-dres:
+		case <-time.After(scen.Watchdog + time.Second):
+			if scen.CertifyStuck(tr, primaryConn) {
+				return fail("blocked-forever", "Disconnect did not return while other calls were waiting for their acknowledgements")
+			}
+			return "inconclusive", "Disconnect not returned within the watchdog", tr.Dump(40)
+		}
 	}
 	// every blocked call returns
 	for _, b := range calls {
@@ -369,7 +394,7 @@ func c11One(k c11Case, rng *rand.Rand) (sig, detail string, trace []string) {
 		}
 	}
 	// connection-ending causes: Done closes and the reader goroutine exits
-	ending := k.Cause == "localclose" || k.Cause == "peerclose" || k.Cause == "malformed"
+	ending := k.Cause == "localclose" || k.Cause == "peerclose" || k.Cause == "malformed" || k.Cause == "disconnect"
 	if !ending {
 		target.Close()
 		cli.Close()
@@ -417,6 +442,14 @@ func c11Reconnect(k c11Case, rng *rand.Rand) (sig, detail string, trace []string
 	if k.Kind == "rc-backoff" {
 		d.FailAll(true)
 	}
+	var cancelAtActive context.CancelFunc
+	if k.Kind == "rc-active" {
+		d.OnActive = func(n int) {
+			if n == 1 && cancelAtActive != nil {
+				cancelAtActive()
+			}
+		}
+	}
 	rc, err := mqtt.NewReconnectClient(d, mqtt.WithReconnectWait(time.Hour, time.Hour), mqtt.WithTimeout(time.Hour))
 	if err != nil {
 		return "inconclusive", err.Error(), nil
@@ -433,6 +466,39 @@ func c11Reconnect(k c11Case, rng *rand.Rand) (sig, detail string, trace []string
 		ctx, cancel = context.WithCancel(context.Background())
 	}
 	defer cancel()
+	cancelAtActive = cancel
+	if k.Kind == "rc-active" {
+		// the context is cancelled exactly when the first CONNACK is accepted; Connect must return (nil or the
+		// context's error) and a later Disconnect must return as well
+		done := make(chan error, 1)
+		go func() { _, err := rc.Connect(ctx, "verif-client"); done <- err }()
+		select {
+		case err := <-done:
+			if err != nil && !errors.Is(err, context.Canceled) {
+				return "wrong-error:rc-active/cancel", fmt.Sprintf("Connect returned %v", err), tr.Dump(40)
+			}
+		case <-time.After(scen.Watchdog):
+			return "blocked-forever:rc-active/cancel", "ReconnectClient.Connect did not return after its context was cancelled when the first CONNACK was accepted", tr.Dump(40)
+		}
+		dres := make(chan error, 1)
+		go func() {
+			dctx, dcancel := context.WithTimeout(context.Background(), scen.Watchdog)
+			defer dcancel()
+			dres <- rc.Disconnect(dctx)
+		}()
+		select {
+		case err := <-dres:
+			if scen.IsDeadline(err) {
+				if scen.CertifyStuck(tr, &memnet.Conn{Tr: tr}) {
+					return "blocked-forever:rc-active/cancel", "ReconnectClient.Disconnect only returned when its own context expired: the reconnect loop never finished after Connect's context was cancelled at the first CONNACK", tr.Dump(40)
+				}
+				return "inconclusive", "Disconnect watchdog", nil
+			}
+		case <-time.After(scen.Watchdog + 2*time.Second):
+			return "blocked-forever:rc-active/cancel", "ReconnectClient.Disconnect did not return", tr.Dump(40)
+		}
+		return "", "", nil
+	}
 	done := make(chan error, 1)
 	go func() {
 		cs := tr.Call("ReconnectClient.Connect", "")
@@ -553,7 +619,7 @@ func init() {
 		ID:    "C11",
 		Level: "fault_enumeration",
 		Rule: "full enumeration of call kind {Connect waiting CONNACK, Publish QoS1 after write, Publish QoS2 waiting PUBREC / waiting PUBCOMP, Subscribe, Unsubscribe, Ping, the Retry handle of an interrupted QoS1 / QoS2 (first and second phase) / subscribe / unsubscribe request blocked on a fresh client, ReconnectClient.Connect while dialling / waiting CONNACK / backing off} " +
-			"x cause {already-cancelled context, context cancel, context deadline, local Close, peer close, malformed packet} x {alone, with three more calls of other kinds blocked on the same connection}; the scripted peer stalls at the step, the harness verifies the call is blocked there (request packet seen, not returned), applies exactly one cause and waits for the return. " +
+			"x cause {already-cancelled context, context cancel, context deadline, local Close, peer close, malformed packet, Disconnect called meanwhile} x {alone, with three more calls of other kinds blocked on the same connection}; the scripted peer stalls at the step, the harness verifies the call is blocked there (request packet seen, not returned), applies exactly one cause and waits for the return. " +
 			"Oracle: every call returns (watchdog => certified-stuck certificate => violation, else inconclusive); context causes => errors.Is(err, ctx.Err()); connection-ending causes => non-nil error, Done() closed and no goroutine with a BaseClient.serve / Connect.func1 frame remains (baseline-subtracted goroutine dump). Thorough repeats the enumeration 40x with seeded read chunking and late-returning writes. Non-trivial: each distinct (kind, cause, multi, chunk, slow).",
 		Assumptions: []string{"a call issued while another goroutine's Connect is in progress on the same client is not covered", "handlers that block forever and transports whose Write blocks are outside the domain"},
 		Gen:         c11Gen,
